@@ -1,19 +1,30 @@
 (* C02 entry points: the batch-processor acceptor (Batch/Model.v) + the C02 history checkers for BATCH cases,
    the provider-composition model (Batch/Compose.v) for COMPOSE cases. *)
-From V Require Export Batch.Spec Batch.Compose.
+From V Require Export Batch.Spec Batch.Compose Batch.Periodic.
 
 Definition is_compose (l : list tok) : bool := match l with t :: _ => is_tag "COMPOSE" t | [] => false end.
 Definition case_part (l : list tok) : list tok := match split_toks "||" l with c :: _ => c | [] => [] end.
 
+Definition is_periodic (l : list tok) : bool := match l with t :: _ => is_tag "PERIODIC" t | [] => false end.
+Definition trace_part (l : list tok) : list tok := match split_toks "||" l with [_; tr] => tr | _ => [] end.
+
 Definition run_model (l : list tok) : list tok :=
+  if is_periodic l then periodic_model (trace_part l) else
   if is_compose l
   then match parse_ccase (case_part l) with Some c => compose_model c | None => bad_case end
   else batch_run_model l.
 Definition run_tag (l : list tok) : list tok :=
+  if is_periodic l then periodic_tag (trace_part l) else
   if is_compose l
   then match parse_ccase (case_part l) with Some c => compose_tag c | None => bad_case end
   else batch_run_tag l.
 Definition run_spec (l obs : list tok) : list tok :=
+  if is_periodic l
+  then match obs with
+       | t :: _ => if is_tag "X" t then periodic_spec2 (trace_part l) else fail "terminate:crash_or_deadlock"
+       | [] => fail "obs:unparsable"
+       end
+  else
   if is_compose l
   then match parse_ccase (case_part l) with Some c => compose_spec c obs | None => bad_case end
   else
